@@ -5,6 +5,8 @@ inside function bodies, so importing the module succeeds and has no effect.  A f
 assembled from *atoms* (statements known to raise a given code, with or without a proposed
 replacement) placed into *skeletons* that stress the line arithmetic of the fixer.
 """
+import re
+
 from ..prng import Rng
 
 PRELUDE = '''from asynq import asynq
@@ -121,6 +123,13 @@ ATOMS = {
     "unused_ml_comment": dict(codes=["unused_variable"], lines=["unused_{n} = takes_two(", "    {n}, 2", ")  # closing note {n}"], simple=False, fix=True),
     "unused_ml_index": dict(codes=["unused_variable"], lines=["unused_{n} = [", "    {n},", "    2][0]"], simple=False, fix=True),
     "unused_ml_paren": dict(codes=["unused_variable"], lines=["unused_{n} = (takes_int({n}) +", "    takes_int(2))"], simple=False, fix=True),
+    # statements whose last physical line lies left of their first (or ends a triple-quoted string)
+    "unused_triple_col0": dict(codes=["unused_variable"], lines=["unused_{n} = \"\"\"text {n}", "@@DEDENT@@more", "@@DEDENT@@\"\"\""], simple=False, fix=True, no_compound=True),
+    "unused_triple_out1": dict(codes=["unused_variable"], lines=["unused_{n} = \"\"\"text {n}", "more", "@@DEDENT4@@\"\"\""], simple=False, fix=True, no_compound=True),
+    "unused_triple_tail": dict(codes=["unused_variable"], lines=["unused_{n} = \"\"\"text {n}", "@@DEDENT@@tail\"\"\""], simple=False, fix=True, no_compound=True),
+    "unused_triple_call": dict(codes=["unused_variable"], lines=["unused_{n} = str(\"\"\"text {n}", "@@DEDENT@@more", "@@DEDENT@@\"\"\")"], simple=False, fix=True, no_compound=True),
+    "unused_bracket_out1": dict(codes=["unused_variable"], lines=["unused_{n} = takes_two(", "        {n}, 2", "@@DEDENT4@@)"], simple=False, fix=True, no_compound=True),
+    "fstring_triple_col0": dict(codes=["use_fstrings"], enable=["use_fstrings"], lines=["print(\"<%s>\" % q, \"\"\"text {n}", "@@DEDENT@@\"\"\")"], simple=False, fix=True),
     "unused_ml_method": dict(codes=["unused_variable"], lines=["unused_{n} = \"a {n} b\".replace(", "    \"a\", \"b\"", ").strip()"], simple=False, fix=True),
     "fstring_ml": dict(codes=["use_fstrings"], enable=["use_fstrings"], lines=["print(\"%s and %d\" % (", "    q,", "    {n},", "))"], simple=False, fix=True),
     # shapes around the f-string fix producer: some must be rewritten, some must be left alone
@@ -261,6 +270,17 @@ KNOWN_DEFECT_ATOMS = {"backslash", "with_multi", "ml_fstring_undef", "marker_in_
 
 SKELETONS = ["only_stmt_of_else", "only_stmt_of_except", "only_stmt_of_finally", "class_body_method", "docstring_fn", "asynq_fn", "missing_asynq_fn", "async_def", "plain", "only_stmt_of_if", "for_body", "try_except", "with_block", "one_line_if", "semicolon",
              "method", "nested", "after_comment", "after_decorator", "else_branch", "while_body"]
+
+
+# continuation lines of a statement that sit LEFT of the statement's own indentation (closing
+# delimiter of a triple-quoted string at column 0, a closing bracket one level out): the atom marks
+# them, the indentation added by the skeletons is cut back once the module is assembled
+_DEDENT = re.compile(r"^([ \t]*)@@DEDENT(\d*)@@")
+
+
+def _dedent_line(m):
+    ws, k = m.group(1), m.group(2)
+    return ws[: max(0, len(ws) - int(k))] if k else ""
 
 
 def _indent(lines, prefix):
@@ -472,6 +492,7 @@ class Gen:
             lines += self.function(k) + ["", ""]
         while lines and lines[-1] == "":
             lines.pop()
+        lines = [_DEDENT.sub(_dedent_line, l) for l in lines]
         if r.chance(0.2):
             # a diagnostic on the very last line, no trailing newline
             n = self.next_n()
